@@ -247,7 +247,8 @@ pub fn u2f_encode(inp: &Value) -> R<Value> {
     let (ok, buf) = crate::with_u2f_cap!(cap, u2f_serialize, &resp, &pre)
         .ok_or_else(|| format!("U2F capacity {} is not instantiated", cap))?;
     let _ = format!("{:?}", resp.clone() == resp);
-    Ok(json!({"ok": ok, "buf": bytes(&buf)}))
+    let kept = &buf[..pre.len().min(buf.len())];
+    Ok(json!({"ok": ok, "buf": bytes(&buf), "kept": bytes(kept), "len": buf.len()}))
 }
 
 /// register::Response::new assembles 0x04 || x || y
